@@ -7,6 +7,7 @@ from ..evidence import Run, canon_hash
 from ..gen import build as B, parse as P
 from . import common as C
 from ..model import match_regex as M_match
+from ..gen.spec import _flat_unique as G_flat_unique
 
 PID = "C03"
 SHARDS = {"quick": 4, "thorough": 16}
@@ -18,7 +19,14 @@ def new_run():
                "cases = (schema spec with a random combination of coerce / default / "
                "add_missing_columns / strict='filter' / drop_invalid_rows / idempotent "
                "custom parser, table) for pandas DataFrameSchema / SeriesSchema (with and "
-               "without index schema) and polars DataFrameSchema (DataFrame and LazyFrame); "
+               "without index schema) and polars DataFrameSchema (DataFrame and LazyFrame), the "
+               "backend drawn per case so that failing LazyFrame validations are followed by "
+               "pandas / polars DataFrame cases in the same thread; the two re-validations of the "
+               "oracle run in a fresh thread (pristine thread-local config context) and the "
+               "config context is read before and after every validate; targeted workloads: "
+               "Index check failing below a row with a column error under drop_invalid_rows, "
+               "nulls created by coercion ('nan'/'NaT'/'None'/'' texts) in columns with a "
+               "default, falsy labels; "
                "non-trivial = validate returned an object while at least one parsing option "
                "was active; distinct = canonical hash of (backend, spec, table)",
                ["custom parsers are idempotent by construction (abs, clip, lower, strip)",
@@ -64,12 +72,52 @@ def str_parser_on_non_str_cells(spec, table):
 
 def classify(spec, table, backend, kind, out2, diff=None, res=None):
     reasons = out2.reasons() if out2 is not None else []
+    if backend == "pandas" and kind == "revalidation-changes-result" and spec["kind"] == "series":
+        fs, col = spec["field"], table["columns"][0]
+        null_texts = {t for ts in P.NULL_TEXT.values() for t in ts}
+        try:
+            has_null = res is not None and bool(res.isna().any())
+        except Exception:
+            has_null = False
+        if fs.get("default") is not None and fs.get("coerce") and col["phys"] == "object" and has_null \
+                and any(isinstance(x, str) and x in null_texts for x in col["values"]):
+            # ArraySchemaBackend.validate fills the default BEFORE it coerces: a
+            # null that coercion itself produces ("nan" / "NaT" text) survives
+            # the first validation and is filled by the second one
+            return "array-schema-default-filled-before-coercion"
     if backend == "pandas" and spec.get("add_missing_columns") and C.has_dup_labels(table) \
             and res is not None and any(
                 list(res.columns).count(c["name"]) > [t["name"] for t in table["columns"]].count(c["name"])
                 for c in table["columns"]):
         return "add_missing_columns-multiplies-repeated-column-labels"
     import re as _re
+    null_texts = {t for ts in P.NULL_TEXT.values() for t in ts}
+    if backend == "pandas" and kind == "result-rejected-by-stripped-schema" and reasons == ["DUPLICATES"] \
+            and spec["kind"] == "frame" and spec.get("unique"):
+        listed = set(G_flat_unique(spec))
+        for fs in spec["columns"]:
+            for c in table["columns"]:
+                if fs["name"] in listed and c["name"] == fs["name"] and fs.get("default") is not None \
+                        and (fs.get("coerce") or spec.get("coerce")) and c["phys"] == "object" \
+                        and any(isinstance(x, str) and x in null_texts for x in c["values"]):
+                    # the frame-level defaults are filled BEFORE coercion, joint
+                    # uniqueness is checked on the coerced frame (the null that
+                    # coercion made is still there), the column component then
+                    # fills the default: the returned frame repeats a row
+                    return "coercion-made-null-filled-after-joint-unique-check"
+    if backend.startswith("polars") and kind == "result-rejected-by-stripped-schema" \
+            and spec.get("add_missing_columns"):
+        labels = [c["name"] for c in table["columns"]]
+        if any(fs.get("regex") and fs.get("required", True)
+               and not any(M_match(fs["name"], l) for l in labels) for fs in spec["columns"]):
+            return "polars-add_missing_columns-adds-column-named-after-unmatched-regex-pattern"
+    if backend.startswith("polars") and kind == "revalidation-changes-result" and spec.get("drop_invalid_rows") \
+            and _re.match(r"^\$\[1\]\[\d+\]\[1\]: ", diff or "") \
+            and (spec.get("coerce") or any(fs.get("coerce") for fs in spec["columns"])):
+        # a failed coercion is one of the errors polars' drop_invalid_rows
+        # swallows: the column comes back uncoerced and the next validation
+        # (fewer rows) coerces it
+        return "polars-drop_invalid_rows-swallows-non-row-errors"
     m = _re.match(r"^\$(\[3\]\[(\d+)\]\[0\]|\[2\]): 'Int64' != 'int64'", diff or "")
     na_coerced = False
     if backend == "pandas" and spec["kind"] == "frame":
@@ -140,6 +188,20 @@ def completeness(run, spec, table, opts, muts, out, backend):
     return True
 
 
+def revalidate(stripped_schema, schema, res, lazy):
+    """The two re-validations of the oracle, run in a fresh thread (pandera's
+    context configuration is thread-local): (a) the result against the schema
+    with parsing switched off, (b) the result against the schema itself.
+    Returns (outcome a, snapshot of the result before b, outcome b)."""
+    def both():
+        o2 = H.run_validate(stripped_schema, res, lazy=True)
+        if not o2.accepted:
+            return o2, None, None
+        before = S.snap(res)
+        return o2, before, H.run_validate(schema, res, lazy=lazy)
+    return H.pristine(both)
+
+
 def pandas_case(run, spec, table, opts, muts):
     try:
         data = B.pandas_table(spec, table)
@@ -166,7 +228,7 @@ def pandas_case(run, spec, table, opts, muts):
     res = out.result
     # (a) result satisfies the schema with parsing switched off
     stripped = P.strip(spec)
-    out2 = H.run_validate(B.pandas_schema(stripped), res, lazy=True)
+    out2, before, out3 = revalidate(B.pandas_schema(stripped), B.pandas_schema(spec), res, lazy)
     run.count("a:stripped_revalidation_checked")
     if out2.kind == "exc":
         run.count("undecided:revalidation_raised_internal_exception(C06):" + H.exc_sig(out2.exc))
@@ -189,9 +251,10 @@ def pandas_case(run, spec, table, opts, muts):
         # next validation fills the nulls the parser made) -> not judged
         run.count("undecided:str-parser-on-non-str-cells-makes-nulls")
         return
-    before = S.snap(res)
-    out3 = H.run_validate(B.pandas_schema(spec), res, lazy=lazy)
     run.count("b:fixpoint_checked")
+    for o in ("coercion_made_nulls", "combo:index_error_below_column_error", "falsy_labels"):
+        if o in opts:
+            run.count(f"b:fixpoint_checked:{o}")
     if out3.kind == "exc":
         run.count("undecided:revalidation_raised_internal_exception(C06):" + H.exc_sig(out3.exc))
         return
@@ -237,7 +300,7 @@ def polars_case(run, spec, table, opts, muts, lazyframe):
         except Exception as e:
             run.count("polars-lazy:result_fails_on_collect(not judged):" + type(e).__name__)
             return
-    out2 = H.run_validate(B.polars_schema(P.strip(spec)), res, lazy=True)
+    out2, before, out3 = revalidate(B.polars_schema(P.strip(spec)), B.polars_schema(spec), res, lazy)
     run.count("a:stripped_revalidation_checked")
     if out2.kind == "exc":
         run.count("undecided:revalidation_raised_internal_exception(C06):" + H.exc_sig(out2.exc))
@@ -252,8 +315,6 @@ def polars_case(run, spec, table, opts, muts, lazyframe):
                                             "exc": repr(out2.exc)[:300] if out2.kind == "exc" else None}),
                       classify(spec, table, backend, "result-rejected-by-stripped-schema", out2))
         return
-    before = S.snap(res)
-    out3 = H.run_validate(B.polars_schema(spec), res, lazy=lazy)
     run.count("b:fixpoint_checked")
     if out3.kind == "exc":
         run.count("undecided:revalidation_raised_internal_exception(C06):" + H.exc_sig(out3.exc))
@@ -266,18 +327,28 @@ def polars_case(run, spec, table, opts, muts, lazyframe):
     d = S.diff(before, S.snap(out3.result))
     if d:
         run.violation("revalidation-changes-result",
-                      C.brief(spec, table, {"backend": backend, "options": opts, "diff": d}), None)
+                      C.brief(spec, table, {"backend": backend, "options": opts, "diff": d}),
+                      classify(spec, table, backend, "revalidation-changes-result", None, d))
 
 
 def run(run, ctx):
     for i in ctx.cases(N[ctx.tier]):
         rng = ctx.rng(PID, i)
-        if i % 3 == 2:
+        # the backend is drawn from the case's own generator (not from the case
+        # index), so that in every shard failing polars LazyFrame validations
+        # are followed by pandas / polars DataFrame cases in the same thread:
+        # whatever an earlier validation leaves behind in the thread shows up
+        # in the validation under test, while the re-validations of the oracle
+        # run in a fresh thread (harness.pristine)
+        r = rng.random()
+        if r < 0.34:
             spec, table, opts, muts = P.gen_parse_case(rng, neutral=True, neutral_regex=True)
-            polars_case(run, spec, table, opts, muts, lazyframe=(i % 2 == 0))
+            polars_case(run, spec, table, opts, muts, lazyframe=rng.random() < 0.5)
         else:
-            spec, table, opts, muts = P.gen_parse_case(rng)
+            spec, table, opts, muts = P.gen_parse_case(rng, index_combo_p=0.12)
             pandas_case(run, spec, table, opts, muts)
+        C.report_context_leaks(run, {"case": i})
+    C.finish_context_monitor(run)
 
 
 def finalize(run, ctx):
@@ -286,5 +357,9 @@ def finalize(run, ctx):
                     ("polars-lazy:ok", 50), ("option:drop_invalid_rows", 50),
                     ("c:parseable_input_must_be_accepted_checked", 200),
                     ("option:add_missing_columns", 50), ("option:strict_filter", 50),
-                    ("option:default", 50)]:
+                    ("option:default", 50),
+                    ("b:fixpoint_checked:coercion_made_nulls", 15),
+                    ("b:fixpoint_checked:combo:index_error_below_column_error", 9),
+                    ("b:fixpoint_checked:falsy_labels", 70),
+                    ("config_monitor:validate_calls_bracketed", 1800)]:
         run.floors[name] = m
